@@ -736,6 +736,7 @@ class Model(Object):
         pruned = DictList(filter(existing_filter, reaction_list))
 
         context = get_context(self)
+        pruned_objects = {id(rxn) for rxn in pruned}
 
         # Add reactions. Also take care of genes and metabolites in the loop.
         for reaction in pruned:
@@ -748,6 +749,12 @@ class Model(Object):
                 #  Reaction.add_metabolites(combine=False)
                 # TODO: Should we add a copy of the metabolite instead?
                 if metabolite not in self.metabolites:
+                    # A metabolite that arrives with its reaction (from another
+                    # model, a copied list, ...) must not bring references to
+                    # reactions that are not being added.
+                    for other in list(metabolite._reaction):
+                        if id(other) not in pruned_objects:
+                            metabolite._reaction.remove(other)
                     self.add_metabolites(metabolite)
                     # a reaction that was removed from a model before is not
                     # known to its metabolites any more
